@@ -91,14 +91,24 @@ def field_specs(draw):
     specs = [{"name": n, "sub": None} for n in names]
     if draw(st.integers(0, 2)) == 0:
         specs.append({"name": "grp", "sub": draw(st.lists(st.sampled_from(["x", "y", "zz"]), min_size=1, max_size=2, unique=True))})
+    if draw(st.integers(0, 3)) == 0:
+        # dictionaries nested three levels deep, with the same lower-level names under two different parents
+        specs.append({"name": "deep", "sub": None, "deep": True})
     return specs
+
+
+def _deep(leaf):
+    return {"t": "dict", "v": {"rx": {"t": "dict", "v": {"antenna": {"t": "dict", "v": {"name": leaf(), "gain": leaf()}}, "cfg": leaf()}},
+                                "tx": {"t": "dict", "v": {"antenna": {"t": "dict", "v": {"name": leaf()}}, "cfg": leaf()}}}}
 
 
 @st.composite
 def sample_dict(draw, specs, forbid_len=None):
     out = {}
     for sp in specs:
-        if sp["sub"] is None:
+        if sp.get("deep"):
+            out[sp["name"]] = _deep(lambda: draw(M.leaf_values()))
+        elif sp["sub"] is None:
             out[sp["name"]] = draw(M.leaf_values())
         else:
             out[sp["name"]] = {"t": "dict", "v": {s: draw(M.leaf_values()) for s in sp["sub"]}}
@@ -129,7 +139,9 @@ def dict_of_arrays(draw, specs, N):
         return draw(M.leaf_values())
 
     for sp in specs:
-        if sp["sub"] is None:
+        if sp.get("deep"):
+            out[sp["name"]] = _deep(leaf)
+        elif sp["sub"] is None:
             out[sp["name"]] = leaf()
         else:
             out[sp["name"]] = {"t": "dict", "v": {s: leaf() for s in sp["sub"]}}
